@@ -795,7 +795,7 @@ def work_temp(item, col):
                 must_raise = ent < tgt
                 base = dict(item=item["name"], pseed=ps, key=ki, target=tgt, entropy_estimate=ent)
                 # (a) gradient step on the loss itself from several alphas
-                for a0 in [0.1, 1.0, 5.0]:
+                for a0 in [1e-10, 0.1, 1.0, 5.0, 20.0, 1e4]:  # incl. log-alpha far outside [-20, 2]
                     coef = SAC.EntropyCoefficient(jnp.log(jnp.asarray([a0], dtype=jnp.float32)))
                     entry = "sac_exploration_loss"
                     ok, g = guarded(col, entry, N, base, lambda: f_g(policy, tgt, key, obs, coef))
